@@ -20,6 +20,9 @@ CLANG_FLAGS = ['-std=c++17', '-O1', '-fno-vectorize', '-fno-slp-vectorize', '-fn
 NCPU = os.cpu_count() or 4
 
 
+MEM_UNWIND = ','.join(f'vp_mem{f}.{k}:{n}' for f, n in (('move_b', 34), ('move_w', 10), ('move_q', 10), ('move_p', 10), ('set_b', 34)) for k in (0, 1) if not (f == 'set_b' and k == 1))
+
+
 class Query:
     def __init__(s, name, cpp, q, defines=(), unwind=3, unwindset=None, timeout=600, solvers=('kissat', 'minisat'), checks=None,
                  witness=True, expect_witness=True, note='', mem_gb=24, extra_flags=(), must_cover=0):
@@ -152,13 +155,16 @@ class Runner:
 
     def job(s, Q, cfile, kind, solver):
         flags = ['--unwind', str(Q.unwind)]
-        if Q.unwindset: flags += ['--unwindset', Q.unwindset]
+        uws = MEM_UNWIND + ((',' + Q.unwindset) if Q.unwindset else '')
+        flags += ['--unwindset', uws]
         flags += ['--drop-unused-functions', '--slice-formula'] + solver_flags(solver) + list(Q.extra_flags)
         if kind == 'verify':
             flags += ['--unwinding-assertions', '--trace', '--stop-on-fail']
             flags += ['--no-standard-checks']
             if Q.checks == 'pointer': flags += ['--pointer-check']
             elif Q.checks == 'all': flags.remove('--no-standard-checks')
+        elif kind == 'witness_sym':
+            flags += ['-DVP_WITNESS', '-DVP_WITNESS_SYMBOLIC', '--no-standard-checks', '--trace']
         elif kind == 'cover':
             flags += ['-DVP_WITNESS', f'-DVP_MUST_COVER={Q.must_cover}u', '--no-standard-checks', '--trace']
         else:
@@ -192,9 +198,18 @@ class Runner:
                 if Q.must_cover:
                     futs[ex.submit(s.job, Q, cfile, 'cover', Q.solvers[0])] = (Q, 'cover', Q.solvers[0])
             done = {}
-            for f in cf.as_completed(futs):
-                Q, kind, solver = futs[f]
-                done.setdefault(Q.name, []).append(f.result())
+            pending = set(futs)
+            while pending:
+                fin, pending = cf.wait(pending, return_when=cf.FIRST_COMPLETED)
+                for f in fin:
+                    Q, kind, solver = futs[f]
+                    r = f.result()
+                    done.setdefault(Q.name, []).append(r)
+                    if kind == 'witness' and r['parsed']['status'] == 'success':
+                        # greedy schedule cannot finish: ask the solver for any schedule
+                        cfile = [c for (q_, c, _, _) in prepared if q_ is Q][0]
+                        nf = ex.submit(s.job, Q, cfile, 'witness_sym', solver)
+                        futs[nf] = (Q, 'witness_sym', solver); pending.add(nf)
         out = []
         for (Q, cfile, rep, err) in prepared:
             out.append(dict(query=Q, cfile=cfile, report=rep, error=err, runs=done.get(Q.name, [])))
@@ -206,7 +221,7 @@ def classify(entry):
     Q = entry['query']
     if entry['error']: return 'broken', 'encoder: ' + entry['error']
     ver = [r for r in entry['runs'] if r['kind'] == 'verify']
-    wit = [r for r in entry['runs'] if r['kind'] == 'witness']
+    wit = [r for r in entry['runs'] if r['kind'] == 'witness_sym'] or [r for r in entry['runs'] if r['kind'] == 'witness']
     viol = None
     statuses = set()
     for r in ver:
@@ -289,7 +304,7 @@ def main():
                     if f not in funcs: funcs.append(f)
             if verdict == 'verified':
                 verified += 1
-                wit = [r for r in e['runs'] if r['kind'] == 'witness']
+                wit = [r for r in e['runs'] if r['kind'] == 'witness_sym'] or [r for r in e['runs'] if r['kind'] == 'witness']
                 if wit:
                     nontrivial += 1
                     tr = None
